@@ -1050,6 +1050,11 @@ func (e *ordEngine) keyedWriter(f *ssa.Function) bool {
 						continue
 					}
 				}
+				// a method of the very object a parameter denotes, with no other argument (as in classifyBody):
+				// its effect is confined to the object the iteration yielded
+				if g := com.StaticCallee(); g != nil && g.Signature.Recv() != nil && len(com.Args) == 1 && fromParam(com.Args[0]) {
+					continue
+				}
 				ok = false
 			}
 		}
